@@ -283,6 +283,14 @@ func freeBoundSlow(t *Term) map[*Term]bool {
 	return out
 }
 
+// resetTerms drops the hash-consing tables (between independent verification units).
+func resetTerms() {
+	termTab = map[string]*Term{}
+	intern(tTrue)
+	intern(tFalse)
+	varSerial = map[*Term]int{}
+}
+
 // ---- constructors ----
 
 func mkInt(n int64) *Term { return mkBig(big.NewInt(n)) }
